@@ -33,7 +33,7 @@ func (E *Engine) declCoinFuns(dec bool) {
 	z := coinZero(dec).S
 	E.D.Axiom(fmt.Sprintf("(forall ((m %s)) (! (>= (clen%s m) 0) :pattern ((clen%s m))))", arr, sfx, sfx))
 	E.D.Axiom(fmt.Sprintf("(forall ((m %s) (i Int)) (! (=> (and (<= 0 i) (< i (clen%s m))) (and (not (= (select m (cden%s m i)) %s)) (= (cidx%s m (cden%s m i)) i))) :pattern ((cden%s m i))))", arr, sfx, sfx, z, sfx, sfx, sfx))
-	E.D.Axiom(fmt.Sprintf("(forall ((m %s) (d Str)) (! (=> (not (= (select m d) %s)) (and (<= 0 (cidx%s m d)) (< (cidx%s m d) (clen%s m)) (= (cden%s m (cidx%s m d)) d))) :pattern ((cidx%s m d))))", arr, z, sfx, sfx, sfx, sfx, sfx, sfx))
+	E.D.Axiom(fmt.Sprintf("(forall ((m %s) (d Str)) (! (=> (not (= (select m d) %s)) (and (<= 0 (cidx%s m d)) (< (cidx%s m d) (clen%s m)) (= (cden%s m (cidx%s m d)) d))) :pattern ((cidx%s m d)) :pattern ((select m d) (clen%s m))))", arr, z, sfx, sfx, sfx, sfx, sfx, sfx, sfx))
 	E.Assume("A-COINS", "sdk.Coins/sdk.DecCoins: a valid coin list (sorted, unique denoms, non-zero amounts) is determined by its denom->amount map; Add/Sub/AmountOf/IsZero/Empty/NewCoins/NewDecCoins act point-wise on the map; Sub and NewCoin panic on negative results")
 }
 
